@@ -5,7 +5,7 @@ package PVM
 // Overlay-only helpers of the C01/C04/C05 harness: build a Memory with a chosen heap pointer and
 // heap limit (unexported fields), and read them back.
 func VerifC01NewMemory(heapPointer, heapLimit uint64) *Memory {
-	return &Memory{Pages: make(map[uint32]*Page), heapPointer: heapPointer, heapLimit: heapLimit}
+	return verifNewMemory(heapPointer, heapLimit)
 }
 
-func VerifC01Heap(m *Memory) (uint64, uint64) { return m.heapPointer, m.heapLimit }
+func VerifC01Heap(m *Memory) (uint64, uint64) { return verifHeap(m) }
